@@ -414,7 +414,7 @@ func scenarioC11(r *Run) {
 	if st.poolHeld > 0 {
 		r.Violate("C11", "ue-addresses-held-after-all-deleted:"+dp, "all sessions deleted, %d UE address(es) still held", st.poolHeld)
 	}
-	if st.teidsUsed != 0 {
+	if st.teidsUsed > 0 {
 		r.Violate("C11", "teids-used-after-all-deleted:"+dp, "all sessions deleted, %d TEID(s) still marked used", st.teidsUsed)
 	}
 	if st.stored != 0 {
